@@ -224,7 +224,7 @@ func runTrieCase(no int, secure bool) {
 		psz = 500
 	}
 	c.pool = genPool(rng, c.Mode, psz, (no/8)%65)
-	c.ops = genOps(rng, c.pool, n, lib.Thorough() || no%16 == 0)
+	c.ops = genOps(rng, c.pool, n, no%16 == 0)
 	cnt := ctr{}
 	defer cnt.flush()
 	run.Eval()
@@ -300,6 +300,9 @@ func trieMonitors(c *trieCase, rng *rand.Rand, cnt ctr) {
 		}
 		for l := range lcps {
 			run.Distinct("lcp_nibbles_between_present_keys", fmt.Sprint(l))
+			if c.Mode == modeFixed32 {
+				run.Distinct("lcp_nibbles_between_present_32byte_keys", fmt.Sprint(l))
+			}
 		}
 	}
 	if len(keys) == 0 {
